@@ -298,8 +298,8 @@ def _run(case, ctx, sim):
 
 def parts(tier):
     return [
-        hyp_part("blocking", lambda: s_case("blocking"), interpret, tier, quick=60, thorough=900,
+        hyp_part("blocking", lambda: s_case("blocking"), interpret, tier, quick=150, thorough=900,
                  quick_shards=6, thorough_shards=12),
-        hyp_part("locks", lambda: s_case("locks"), interpret, tier, quick=25, thorough=300,
+        hyp_part("locks", lambda: s_case("locks"), interpret, tier, quick=60, thorough=300,
                  quick_shards=2, thorough_shards=4),
     ]
